@@ -21,7 +21,7 @@ pub mod c14;
 pub mod c15;
 
 pub fn all() -> Vec<&'static Scenario> {
-    vec![&c01::IDENTITY, &c01::VERIFIERS, &c02::RPC, &c03::EXPECTED, &lifecycle::C04_HISTORY, &direct::C04_DIRECT, &direct::C04_EXHAUSTIVE, &c05::MUTUAL, &direct::C05_DIRECT, &c06::HOSTILE, &c07::STREAM, &c07::CLOSED_SETS, &c08::SHUTDOWN, &lifecycle::C09_HISTORY, &c10::ADMISSION, &c11::DEADLINE, &c12::ABANDON, &c13::BACKGROUND, &c14::NAMES, &c15::LIMITS, &layers::C18_DIRECT, &layers::C18_NET, &layers::C19_DIRECT, &layers::C19_VIRTUAL, &layers::C20_DIRECT, &layers::C20_NET]
+    vec![&c01::IDENTITY, &c01::VERIFIERS, &c02::RPC, &c03::EXPECTED, &lifecycle::C04_HISTORY, &direct::C04_DIRECT, &direct::C04_EXHAUSTIVE, &c05::MUTUAL, &direct::C05_DIRECT, &c06::HOSTILE, &c07::STREAM, &c07::CLOSED_SETS, &c08::SHUTDOWN, &lifecycle::C09_HISTORY, &c10::ADMISSION, &c11::DEADLINE, &c12::ABANDON, &c13::BACKGROUND, &c14::NAMES, &c15::LIMITS, &layers::C18_DIRECT, &layers::C18_NET, &layers::C19_DIRECT, &layers::C19_VIRTUAL, &layers::C19_NET, &layers::C20_DIRECT, &layers::C20_NET]
 }
 
 pub fn for_property(id: &str) -> Vec<&'static Scenario> {
